@@ -4,14 +4,19 @@ from checks import codec_common as cc
 from checks import codec_randacc as ra
 
 MODULES = ["TLVerif.Props.C43"]
-THEOREMS = ["TLVerif.Props.C43." + t for t in []]
-SOURCES = ["TLVerif.Codec.Access", "TLVerif.Codec.Ops.Access"]
+THEOREMS = ["TLVerif.Props.C43." + t for t in [
+    "set_then_isSet", "set_emitted_tl1", "set_stores", "setFalse_then_notSet", "setFalse_absent_tl1",
+    "clear_then_notSet", "clear_absent_tl1", "clear_resets",
+    "set_frame_vals", "set_frame_tl2", "set_frame_params", "set_frame_maskBits",
+    "clear_frame_vals", "clear_frame_tl2", "clear_frame_params", "clear_frame_maskBits",
+    "set_keeps_consistent_partial", "clear_keeps_consistent_partial", "ofRead_agrees",
+    "accessors_inconsistent_at_shared_bit", "accessors_inconsistent_at_mask_of_mask", "set_does_not_set_ancestor_mask"]]
+SOURCES = ["TLVerif.Codec.Access", "TLVerif.Codec.AccessLemmas", "TLVerif.Codec.Ops.Access"]
 K_SHARED = "C43-shared-mask:accessors-update-only-their-own-presence-bit:qt_struct.qtpl-fieldMaskGettersAndSetters"
 
 
 def run(c):
-    if THEOREMS:
-        c.lean(MODULES, THEOREMS, sources=SOURCES)
+    c.lean(MODULES, THEOREMS, sources=SOURCES)
     corpus = cc.corpus(c) if c.thorough else cc.corpus(c, small=True)[:2]
     only = os.environ.get("C43_ONLY")
     schemas = [s for s in corpus if not only or s.sid in only.split(",")]
